@@ -26,11 +26,11 @@ Proof.
 Qed.
 Print Assumptions C28_single_calls.
 
-(* Parsing then encoding: for every section layout that is outside D09 and whose name sections are well-formed,
+(* Parsing then encoding: for every section layout whose name sections are well-formed (D09 is repaired),
    the vector handed to the encoder is exactly the list of the custom sections not called "name", in file order
    (wherever they stood among the standard sections, whatever their names — producers included). *)
 Theorem C28_parse_then_emit :
-  forall layout, d09_scan 0 0 layout = false -> forallb name_wellformed layout = true ->
+  forall layout, forallb name_wellformed layout = true ->
     parse_customs layout = Done (spec_customs layout).
 Proof. exact parse_then_emit. Qed.
 Print Assumptions C28_parse_then_emit.
@@ -69,23 +69,24 @@ Print Assumptions C28_edits_preserve_names_and_order.
 
 (* The model of a harness case meets the executable specification evaluated on the implementation's output
    (answers of every call, emitted list = live slots, "everything else" of the module unchanged by parsing,
-   encoding and by the edits), for every case in the domain outside D09. *)
+   encoding and by the edits), for every case in the domain. *)
 Theorem C28_model_meets_spec :
-  forall c, domain28 c = true -> known_D09 c = false -> holds_on c (model c) = true.
+  forall c, domain28 c = true -> holds_on c (model c) = true.
 Proof. exact model_meets_spec. Qed.
 Print Assumptions C28_model_meets_spec.
 
 Theorem C28_checker_sound :
-  forall c, agree c = true -> domain28 c = true -> known_D09 c = false -> holds28 c = true.
+  forall c, agree c = true -> domain28 c = true -> holds28 c = true.
 Proof. exact checker28_sound. Qed.
 Print Assumptions C28_checker_sound.
 
-(* D09 refutes the unrestricted property: on a valid module with a zero-field "producers" section the faithful
-   model (like the implementation) panics. *)
-Theorem C28_refuted_by_D09 :
-  exists c, agree c = true /\ domain28 c = true /\ known_D09 c = true /\ holds28 c = false.
-Proof. exact refuted_by_D09. Qed.
-Print Assumptions C28_refuted_by_D09.
+(* D09 used to refute the unrestricted property (Module::parse panicked on a valid module with a zero-field
+   "producers" section); after the repair that very input satisfies it. *)
+Theorem C28_former_D09_witness_holds :
+  exists c, cc_layout c = [IStd 1 0; ICustom 2 0 CPlain; ICustom PRODUCERS 1 (CProd 1)]
+            /\ agree c = true /\ domain28 c = true /\ holds28 c = true.
+Proof. exact former_D09_witness_holds. Qed.
+Print Assumptions C28_former_D09_witness_holds.
 
 (* ---------- non-vacuity ---------- *)
 Example C28_ex_calls :
@@ -99,12 +100,13 @@ Example C28_ex_calls :
   /\ apply_op (OGet 3) l = None.
 Proof. vm_compute. repeat split; reflexivity. Qed.
 
-(* custom sections before, between and after the standard sections, a well-placed name section, a producers
-   section: hypotheses of C28_parse_then_emit hold and the result is the expected list *)
+(* custom sections before, between and after the standard sections, a name section *before* the code section that
+   names a local function, a producers section without fields: the hypothesis of C28_parse_then_emit holds and the
+   result is the expected list *)
 Example C28_ex_parse :
-  let layout := [ICustom 2 0 CPlain; IStd 1 0; IStd 2 1; ICustom 1 1 (CProd 0); IStd 3 0; IStd 10 2;
-                 ICustom 0 2 (CNameOk [0; 2]); ICustom 3 3 CPlain; IStd 11 0; ICustom 2 4 CPlain] in
-  d09_scan 0 0 layout = false /\ forallb name_wellformed layout = true
+  let layout := [ICustom 2 0 CPlain; IStd 1 0; IStd 2 1; ICustom 1 1 (CProd 1); IStd 3 0;
+                 ICustom 0 2 (CNameOk [0; 2]); IStd 10 2; ICustom 3 3 CPlain; IStd 11 0; ICustom 2 4 CPlain] in
+  forallb name_wellformed layout = true
   /\ parse_customs layout = Done [(2, 0); (1, 1); (3, 3); (2, 4)].
 Proof. vm_compute. repeat split; reflexivity. Qed.
 
@@ -120,7 +122,7 @@ Example C28_ex_checker :
   let c st res out ro rn := mkCC [ICustom 2 0 CPlain; IStd 1 0; ICustom 3 1 CPlain; IStd 10 1; ICustom 0 2 (CNameOk [0])]
                                 [OAdd 4 3; ODelete 0; OModify 0 5] 1 st res out ro rn true in
   let good := c 0 [[2]; []; [1]] [(3, 5); (4, 3)] 1 1 in
-  domain28 good = true /\ known_D09 good = false /\ agree good = true /\ holds28 good = true
+  domain28 good = true /\ agree good = true /\ holds28 good = true
   /\ holds28 (c 0 [[2]; []; [1]] [(4, 3); (3, 5)] 1 1) = false       (* order changed *)
   /\ holds28 (c 0 [[2]; []; [1]] [(3, 1); (4, 3)] 1 1) = false       (* modification lost *)
   /\ holds28 (c 0 [[2]; []; [1]] [(2, 0); (3, 5); (4, 3)] 1 1) = false  (* deletion lost *)
